@@ -155,12 +155,20 @@ func (g *Gen) verifyFunction(fn *ssa.Function, sp *FuncSpec) *FnCtx {
 			}
 			return false
 		}
+		// the block the loop's head leaves to when the loop is exhausted: an edge from the body to that very block is a
+		// break even when the block does nothing but return
+		normalExit := map[*ssa.BasicBlock]bool{}
+		for _, s2 := range li.head.Succs {
+			if !li.blocks[s2] {
+				normalExit[s2] = true
+			}
+		}
 		for b := range li.blocks {
 			if b == li.head {
 				continue
 			}
 			for _, s2 := range b.Succs {
-				if li.blocks[s2] || endsInReturn(s2) {
+				if li.blocks[s2] || (endsInReturn(s2) && !normalExit[s2]) {
 					continue
 				}
 				ec := fr.edge[[2]int{b.Index, s2.Index}]
